@@ -30,6 +30,7 @@ PROFILE = {
     "feat": gen.swarm_feat,
     "edits": hist.OUTSIDE_EDITS + hist.OUTSIDE_EDITS + hist.INSIDE_EDITS,
     "n": (4, 10),
+    "locations": ["package", "package", "package", "main", "notebook"],
     "p_restart": 0.8,
     "p_revert": 0.15,
     "p_driver_keep": 0.15,
